@@ -78,7 +78,7 @@ def run(ctx):
     #     spec's Votor casts (e.g. the finalization vote when the certificate arrives BEFORE the block) and on the
     #     real pool announcing every ready parent / waking waiters (e.g. a late notarization behind skipped windows)
     V.run_model(ctx, "votor_handover", c05.HANDOVER, 7, 7 if ctx.tier == "quick" else 9,
-                relevant=lambda fp, fields: any(f.startswith("msgs") or f == "panic" for f in fields),
+                relevant=lambda fp, fields: any(f.startswith("msgs") or f in ("panic", "arm") for f in fields),
                 sample=60000 if ctx.tier == "quick" else 600000)
     for i, (fates, waits) in enumerate(c07.QUICK):
         if ctx.tier == "quick" and i not in (1, 3):
